@@ -1,234 +1,1040 @@
 /-
-  C08 proofs over the hand-written resource-endpoint model: honoured => live (for any plaintext a
-  presented string decrypts to), deadness is an invariant of every operation, hence revocation and
-  logout stick over ALL later histories; inactive introspection is a constant answer.
--/
-import OidcModel.Model.Resource
-namespace Res
+  C08 proofs.  Everything is about the definitions REGENERATED from pkg/op/userinfo.go, token_intospection.go,
+  token_revocation.go, token_exchange.go (getTokenIDAndClaims), op.go (Provider.AccessTokenVerifier) and the LegacyServer
+  twins in server_legacy.go (Generated/Resource.lean, namespace `GenRes`), dispatched by Model/ResourceFlow.lean:
 
-theorem liveTok_some {s : St} {id : String} {t : Tok} (h : liveTok s id = some t) :
-    t ∈ s.toks ∧ t.id = id ∧ t.live = true := by
-  unfold liveTok lookup at h
-  cases hf : s.toks.find? (·.id == id) with
+  * bridges (`getTokenIDAndSubject_eq`, …, `Userinfo_eq`, `Introspect_eq`, `Revoke_eq`, `LegacyRevocation_eq`): each regenerated function
+    IS its hand-readable reference (`resolve`, `refUserinfo`, `refIntrospect`, `refRevoke`) - both routers denote the same function;
+  * `honoured_implies_live`        — whatever is honoured (userinfo claims, active:true, accepted exchange subject, refresh grant) is a
+                                     token the storage knows, unexpired, unrevoked - for ANY oracle (any plaintext, any parser);
+  * `dead_step` / `revocation_sticks` — deadness of access AND refresh tokens is an invariant of every operation: over ALL histories;
+  * `revoke_kills_at` / `revoke_kills_rt_partial` (+ witness of the full statement's failure) — revocation by the owner, for every hint;
+  * `foreign_revoke_refused_*`, `unknown_revoke_ok`, `inactive_discloses_nothing`;
+  * `c08_issuer_bound`             — a JWT access token is honoured only at the issuer named in it (and only validly signed, unexpired),
+                                     for all issuers / hosts; `opaque_not_issuer_bound_witness` records that opaque tokens are not.
+-/
+import OidcModel.Model.ResourceFlow
+import OidcModel.Proofs.C01
+import OidcModel.Proofs.C02
+set_option linter.unusedSimpArgs false
+namespace Res
+open Go Hand
+
+/-! ### the storage tables -/
+
+theorem lookup_some {s : St} {id : String} {t : Tok} (h : s.lookup id = some t) : t ∈ s.toks ∧ t.id = id ∧ t.gone = false := by
+  unfold St.lookup at h
+  have h1 := List.mem_of_find?_eq_some h
+  have h2 := List.find?_some h
+  simp only [Bool.and_eq_true, beq_iff_eq, Bool.not_eq_true'] at h2
+  exact ⟨h1, h2.1, h2.2⟩
+
+theorem liveTok_some {s : St} {id : String} {t : Tok} (h : s.liveTok id = some t) : t ∈ s.toks ∧ t.id = id ∧ t.live = true := by
+  unfold St.liveTok at h
+  cases hf : s.lookup id with
   | none => simp [hf] at h
   | some t' =>
     simp [hf, Option.filter] at h
     obtain ⟨hl, rfl⟩ := h
-    exact ⟨List.mem_of_find?_eq_some hf, by simpa using List.find?_some hf, hl⟩
+    exact ⟨(lookup_some hf).1, (lookup_some hf).2.1, hl⟩
 
-/-- C08 (1): whatever is honoured - userinfo claims, active:true, an accepted exchange subject - belongs
-    to a token the storage knows and that is neither expired nor revoked; this holds for ANY plaintext a
-    presented string may decrypt to -/
-theorem honoured_implies_live (s : St) (op : Op) (id : String) (h : (step s op).2 = some id) :
-    ∃ t, t ∈ s.toks ∧ t.id = id ∧ t.live = true := by
+theorem lookupR_some {s : St} {tok : String} {r : RTok} (h : s.lookupR tok = some r) : r ∈ s.rtoks ∧ r.token = tok ∧ r.gone = false := by
+  unfold St.lookupR at h
+  have h1 := List.mem_of_find?_eq_some h
+  have h2 := List.find?_some h
+  simp only [Bool.and_eq_true, beq_iff_eq, Bool.not_eq_true'] at h2
+  exact ⟨h1, h2.1, h2.2⟩
+
+theorem liveR_some {s : St} {tok : String} {r : RTok} (h : s.liveR tok = some r) : r ∈ s.rtoks ∧ r.token = tok ∧ r.live = true := by
+  unfold St.liveR at h
+  cases hf : s.lookupR tok with
+  | none => simp [hf] at h
+  | some t' =>
+    simp [hf, Option.filter] at h
+    obtain ⟨hl, rfl⟩ := h
+    exact ⟨(lookupR_some hf).1, (lookupR_some hf).2.1, hl⟩
+
+/-- the token is known to the storage and neither expired, revoked nor removed -/
+def Live (s : St) : Ref → Prop
+  | .at id => ∃ t, t ∈ s.toks ∧ t.id = id ∧ t.live = true
+  | .rt tok => ∃ r, r ∈ s.rtoks ∧ r.token = tok ∧ r.live = true
+
+theorem setUserinfo_ok {s : St} {id sub : String} {u : ResUserInfo} (h : s.SetUserinfoFromToken id sub = .ok u) :
+    ∃ t, s.liveTok id = some t ∧ u = { Subject := t.subject, tokenID := t.id } := by
+  unfold St.SetUserinfoFromToken at h
+  split at h
+  · rename_i t ht; simp at h; exact ⟨t, ht, h.symm⟩
+  · simp at h
+
+theorem setIntrospection_ok {s : St} {resp r : ResIntrospection} {id sub cid : String} (h : s.SetIntrospectionFromToken resp id sub cid = .ok r) :
+    ∃ t, s.liveTok id = some t ∧ t.audience.contains cid = true ∧
+      r = { resp with Active := true, Subject := t.subject, ClientID := t.client, Audience := t.audience, tokenID := t.id } := by
+  unfold St.SetIntrospectionFromToken at h
+  split at h
+  · rename_i t ht
+    split at h
+    · rename_i ha; simp at h; exact ⟨t, ht, ha, h.symm⟩
+    · simp at h
+  · simp at h
+
+/-! ### bridges: the regenerated functions are their reference readings -/
+
+/-- what the regenerated `VerifyAccessToken` demands of a token it accepts -/
+theorem opVerifyAccessToken_ok {now : Int} {t : Token} {v : Verifier} {c : Claims} (h : Gen.OPVerifyAccessToken now t v = .ok c) :
+    ∃ p c0, ParseToken now t = .ok (p, c0) ∧ c0.iss = v.Issuer ∧ Gen.CheckSignature now t p c0 v.SupportedSignAlgs v.KeySet = .ok c ∧
+      Gen.CheckExpiration now c v.Offset = .ok () := by
+  unfold Gen.OPVerifyAccessToken Gen.DecryptToken at h
+  simp only [] at h
+  repeat' (split at h <;> try (simp at h))
+  subst h
+  exact ⟨_, _, by assumption, C01.checkIssuer_ok.mp (by assumption), by assumption, by assumption⟩
+
+/-- hand-readable meaning of the three regenerated readers of a presented access-token string: an opaque token is whatever
+    `Decrypt` makes of it, split on ':' into exactly two parts; otherwise a JWT the request's verifier accepts -/
+def resolve (now : Int) (p : ResProvider) (tok : String) : Option (String × String) :=
+  match p.decrypt tok with
+  | .ok plain =>
+    match Hand.resSplit plain ":" with
+    | [a, b] => some (a, b)
+    | _ => none
+  | .error _ =>
+    match Gen.OPVerifyAccessToken now (p.tokenOf tok) p.verifier with
+    | .ok c => some (p.jtiOf tok, c.sub)
+    | .error _ => none
+
+def resolved : Option (String × String) → String × String × Bool
+  | some (a, b) => (a, b, true)
+  | none => ("", "", false)
+
+theorem split_cases (l : List String) : (∃ a b, l = [a, b]) ∨ ((Go.len l != (2 : Int)) = true ∧ ∀ a b, l ≠ [a, b]) := by
+  match l with
+  | [] => right; simp [Go.len, HasLen.len]
+  | [a] => right; simp [Go.len, HasLen.len]
+  | [a, b] => left; exact ⟨a, b, rfl⟩
+  | a :: b :: c :: r => right; simp [Go.len, HasLen.len]; omega
+
+theorem getTokenIDAndSubject_eq (now : Int) (p : ResProvider) (tok : String) :
+    GenRes.getTokenIDAndSubject now p tok = resolved (resolve now p tok) := by
+  unfold GenRes.getTokenIDAndSubject resolve ResProvider.Crypto ResProvider.AccessTokenVerifier Hand.resVerifyAccessToken
+  simp only []
+  cases hd : p.decrypt tok with
+  | ok plain =>
+    simp only []
+    rcases split_cases (Hand.resSplit plain ":") with ⟨a, b, h⟩ | ⟨h1, h2⟩
+    · simp [h, Go.len, HasLen.len, Go.index, resolved]
+    · rw [if_pos h1]
+      split <;> simp_all [resolved]
+  | error e =>
+    simp only []
+    cases hv : Gen.OPVerifyAccessToken now (p.tokenOf tok) p.verifier <;> simp [resolved]
+
+theorem getTokenIDAndSubjectForRevocation_eq (now : Int) (p : ResProvider) (tok : String) :
+    GenRes.getTokenIDAndSubjectForRevocation now p tok = resolved (resolve now p tok) := by
+  unfold GenRes.getTokenIDAndSubjectForRevocation resolve ResProvider.Crypto ResProvider.AccessTokenVerifier Hand.resVerifyAccessToken
+  simp only []
+  cases hd : p.decrypt tok with
+  | ok plain =>
+    simp only []
+    rcases split_cases (Hand.resSplit plain ":") with ⟨a, b, h⟩ | ⟨h1, h2⟩
+    · simp [h, Go.len, HasLen.len, Go.index, resolved]
+    · rw [if_pos h1]
+      split <;> simp_all [resolved]
+  | error e =>
+    simp only []
+    cases hv : Gen.OPVerifyAccessToken now (p.tokenOf tok) p.verifier <;> simp [resolved]
+
+/-- `getTokenIDAndClaims` (token exchange): the same decision, plus the claims of a JWT -/
+theorem getTokenIDAndClaims_eq (now : Int) (p : ResProvider) (tok : String) :
+    ((GenRes.getTokenIDAndClaims now p tok).1, (GenRes.getTokenIDAndClaims now p tok).2.1, (GenRes.getTokenIDAndClaims now p tok).2.2.2)
+      = resolved (resolve now p tok) := by
+  unfold GenRes.getTokenIDAndClaims resolve ResProvider.Crypto ResProvider.AccessTokenVerifier Hand.resVerifyAccessToken
+  simp only []
+  cases hd : p.decrypt tok with
+  | ok plain =>
+    simp only []
+    rcases split_cases (Hand.resSplit plain ":") with ⟨a, b, h⟩ | ⟨h1, h2⟩
+    · simp [h, Go.len, HasLen.len, Go.index, resolved]
+    · rw [if_pos h1]
+      split <;> simp_all [resolved]
+  | error e =>
+    simp only []
+    cases hv : Gen.OPVerifyAccessToken now (p.tokenOf tok) p.verifier <;> simp [resolved]
+
+/-- reference reading of `op.Userinfo` -/
+def refUserinfo (now : Int) (p : ResProvider) (rq : Go.R String) : ResResp :=
+  match rq with
+  | .error _ => .httpError "access token missing" 401
+  | .ok tok =>
+    match resolve now p tok with
+    | none => .httpError "access token invalid" 401
+    | some (id, sub) =>
+      match p.store.SetUserinfoFromToken id sub with
+      | .error err => .jsonError err 403
+      | .ok info => .userinfo info
+
+theorem Userinfo_eq (now : Int) (rq : Go.R String) (p : ResProvider) : GenRes.Userinfo now rq p = refUserinfo now p rq := by
+  unfold GenRes.Userinfo refUserinfo Hand.resParseUserinfoRequest ResProvider.Storage
+  cases rq with
+  | error e => rfl
+  | ok tok =>
+    simp only [getTokenIDAndSubject_eq]
+    cases resolve now p tok with
+    | none => simp [resolved]
+    | some pr => obtain ⟨id, sub⟩ := pr; simp only [resolved]; cases p.store.SetUserinfoFromToken id sub <;> simp
+
+/-- reference reading of `LegacyServer.UserInfo` -/
+def refLegacyUserInfo (now : Int) (p : ResProvider) (tok : String) : Go.R ResUserInfo :=
+  match resolve now p tok with
+  | none => .error "401:ErrAccessDenied"
+  | some (id, sub) =>
+    match p.store.SetUserinfoFromToken id sub with
+    | .error err => .error ("403:" ++ err)
+    | .ok info => .ok info
+
+theorem LegacyUserInfo_eq (now : Int) (p : ResProvider) (r : ResRequest) :
+    GenRes.LegacyUserInfo now ⟨p⟩ r = refLegacyUserInfo now p r.Data.AccessToken := by
+  unfold GenRes.LegacyUserInfo refLegacyUserInfo ResProvider.Storage Hand.NewResponse Hand.resNewStatusError
+  simp only [getTokenIDAndSubject_eq]
+  cases resolve now p r.Data.AccessToken with
+  | none => simp [resolved]
+  | some pr => obtain ⟨id, sub⟩ := pr; simp only [resolved]; cases p.store.SetUserinfoFromToken id sub <;> simp
+
+/-- reference reading of `op.Introspect` / `LegacyServer.Introspect`: the response stays zero-valued unless the storage confirms -/
+def refIntrospect (now : Int) (p : ResProvider) (tok cid : String) : ResIntrospection :=
+  match resolve now p tok with
+  | none => default
+  | some (id, sub) =>
+    match p.store.SetIntrospectionFromToken default id sub cid with
+    | .error _ => default
+    | .ok r => { r with Active := true }
+
+theorem Introspect_eq (now : Int) (rq : Go.R (String × String)) (p : ResProvider) :
+    GenRes.Introspect now rq p = match rq with
+      | .error err => .httpError err 401
+      | .ok (tok, cid) => .introspection (refIntrospect now p tok cid) := by
+  unfold GenRes.Introspect refIntrospect Hand.resParseTokenIntrospectionRequest ResProvider.Storage
+  cases rq with
+  | error e => rfl
+  | ok pr =>
+    obtain ⟨tok, cid⟩ := pr
+    simp only [getTokenIDAndSubject_eq]
+    cases resolve now p tok with
+    | none => simp [resolved]
+    | some pr => obtain ⟨id, sub⟩ := pr; simp only [resolved]; cases p.store.SetIntrospectionFromToken default id sub cid <;> simp
+
+theorem LegacyIntrospect_eq (now : Int) (p : ResProvider) (r : ResRequest) :
+    GenRes.LegacyIntrospect now ⟨p⟩ r = match r.Data.ClientCredentials with
+      | .error err => .error err
+      | .ok cid => .ok (refIntrospect now p r.Data.Token cid) := by
+  unfold GenRes.LegacyIntrospect refIntrospect Hand.resAuthenticateResourceClient ResProvider.Storage Hand.NewResponse
+  cases r.Data.ClientCredentials with
+  | error e => rfl
+  | ok cid =>
+    simp only [getTokenIDAndSubject_eq]
+    cases resolve now p r.Data.Token with
+    | none => simp [resolved]
+    | some pr => obtain ⟨id, sub⟩ := pr; simp only [resolved]; cases p.store.SetIntrospectionFromToken default id sub cid <;> simp
+
+/-- what the revocation handlers make of the submitted string when they treat it as an ACCESS token: its id and subject if it
+    decrypts / verifies, else the raw string itself, so that the storage can still find a refresh token (RFC 7009 §2.1: a wrong
+    hint must not stop the search) -/
+def asAccess (now : Int) (p : ResProvider) (tok : String) : String × String :=
+  match resolve now p tok with
+  | some (id, sub) => (id, sub)
+  | none => (tok, "")
+
+/-- the (token, subject) pair handed to `Storage.RevokeToken` (error: the refresh-token lookup failed for another reason) -/
+def revokeTarget (now : Int) (p : ResProvider) (w : ResWorld) (tok hint cid : String) : Go.R (String × String) :=
+  if hint != "access_token" then
+    match w.GetRefreshTokenInfo cid tok with
+    | .ok (uid, tid) => .ok (tid, uid)
+    | .error err => if !(Hand.resErrorsIs err "ErrInvalidRefreshToken") then .error "ErrServerError" else .ok (asAccess now p tok)
+  else .ok (asAccess now p tok)
+
+/-- reference reading of both revocation handlers -/
+def refRevoke (now : Int) (p : ResProvider) (w : ResWorld) (tok hint cid : String) : ResWorld × Go.R Unit :=
+  match revokeTarget now p w tok hint cid with
+  | .error e => (w, .error e)
+  | .ok (t, sub) => w.RevokeToken t sub cid
+
+theorem Revoke_eq (now : Int) (rq : Go.R (String × String × String)) (w : ResWorld) (p : ResProvider) :
+    GenRes.Revoke now rq w p = match rq with
+      | .error err => Hand.resRevocationRequestError w err
+      | .ok (tok, hint, cid) =>
+        match refRevoke now p w tok hint cid with
+        | (w', .error err) => Hand.resRevocationRequestError w' err
+        | (w', .ok _) => Hand.resMarshalJSON w' .empty := by
+  unfold GenRes.Revoke refRevoke revokeTarget asAccess Hand.resParseTokenRevocationRequest
+  cases rq with
+  | error e => rfl
+  | ok pr =>
+    obtain ⟨tok, hint, cid⟩ := pr
+    simp only [getTokenIDAndSubjectForRevocation_eq]
+    by_cases hh : (hint != "access_token") = true
+    · simp only [hh, if_true]
+      cases hg : w.GetRefreshTokenInfo cid tok with
+      | error err =>
+        simp only []
+        by_cases he : (!(Hand.resErrorsIs err "ErrInvalidRefreshToken")) = true
+        · simp [he]
+        · simp only [he, if_false, if_true]
+          cases hr : resolve now p tok with
+          | none => simp only [resolved]; cases hk : w.RevokeToken tok "" cid with | mk w' r => cases r <;> simp [hk]
+          | some pr => obtain ⟨id, sub⟩ := pr; simp only [resolved]; cases hk : w.RevokeToken id sub cid with | mk w' r => cases r <;> simp [hk]
+      | ok pr =>
+        obtain ⟨uid, tid⟩ := pr
+        simp only []
+        cases hk : w.RevokeToken tid uid cid with | mk w' r => cases r <;> simp [hk]
+    · simp only [hh, if_false]
+      cases hr : resolve now p tok with
+      | none => simp only [resolved]; cases hk : w.RevokeToken tok "" cid with | mk w' r => cases r <;> simp [hk]
+      | some pr => obtain ⟨id, sub⟩ := pr; simp only [resolved]; cases hk : w.RevokeToken id sub cid with | mk w' r => cases r <;> simp [hk]
+
+theorem LegacyRevocation_eq (now : Int) (w : ResWorld) (p : ResProvider) (r : ResClientRequest) :
+    GenRes.LegacyRevocation now w ⟨p⟩ r =
+      match refRevoke now p w r.Data.Token r.Data.TokenTypeHint r.Client.id with
+      | (w', .error err) => (w', .error err)
+      | (w', .ok _) => (w', .ok .empty) := by
+  unfold GenRes.LegacyRevocation refRevoke revokeTarget asAccess Hand.resRevocationError Hand.NewResponse OPClient.GetID
+  simp only [getTokenIDAndSubjectForRevocation_eq]
+  by_cases hh : (r.Data.TokenTypeHint != "access_token") = true
+  · simp only [hh, if_true]
+    cases hg : w.GetRefreshTokenInfo r.Client.id r.Data.Token with
+    | error err =>
+      simp only []
+      by_cases he : (!(Hand.resErrorsIs err "ErrInvalidRefreshToken")) = true
+      · simp [he]
+      · simp only [he, if_false, if_true]
+        cases hr : resolve now p r.Data.Token with
+        | none => simp only [resolved]; cases hk : w.RevokeToken r.Data.Token "" r.Client.id with | mk w' x => cases x <;> simp [hk]
+        | some pr => obtain ⟨id, sub⟩ := pr; simp only [resolved]; cases hk : w.RevokeToken id sub r.Client.id with | mk w' x => cases x <;> simp [hk]
+    | ok pr =>
+      obtain ⟨uid, tid⟩ := pr
+      simp only []
+      cases hk : w.RevokeToken tid uid r.Client.id with | mk w' x => cases x <;> simp [hk]
+  · simp only [hh, if_false]
+    cases hr : resolve now p r.Data.Token with
+    | none => simp only [resolved]; cases hk : w.RevokeToken r.Data.Token "" r.Client.id with | mk w' x => cases x <;> simp [hk]
+    | some pr => obtain ⟨id, sub⟩ := pr; simp only [resolved]; cases hk : w.RevokeToken id sub r.Client.id with | mk w' x => cases x <;> simp [hk]
+
+/-! ### the endpoints of BOTH routers, read through the bridges -/
+
+theorem userinfo_spec (rt : Router) (atp : ResATProvider) (e : Env) (s : St) (tok : String) :
+    userinfo rt atp e s tok =
+      match resolve e.now (provider atp e s) tok with
+      | none => .refused 401
+      | some (id, sub) =>
+        match s.SetUserinfoFromToken id sub with
+        | .ok u => .claims u
+        | .error _ => .refused 403 := by
+  cases rt with
+  | provider =>
+    simp only [userinfo, Userinfo_eq, refUserinfo]
+    cases resolve e.now (provider atp e s) tok with
+    | none => rfl
+    | some pr => obtain ⟨id, sub⟩ := pr; simp only [provider]; cases s.SetUserinfoFromToken id sub <;> rfl
+  | legacy =>
+    simp only [userinfo, LegacyUserInfo_eq, refLegacyUserInfo]
+    cases resolve e.now (provider atp e s) tok with
+    | none => simp [Go.hasPrefix]
+    | some pr =>
+      obtain ⟨id, sub⟩ := pr; simp only [provider]
+      cases s.SetUserinfoFromToken id sub with
+      | ok u => rfl
+      | error err =>
+        simp only [Go.hasPrefix]
+        have : ("401:".toList.isPrefixOf ("403:" ++ err).toList) = false := by
+          simp [String.toList_append, List.isPrefixOf]
+        simp [this]
+
+theorem introspect_spec (rt : Router) (atp : ResATProvider) (e : Env) (s : St) (caller : Option String) (tok : String) :
+    introspect rt atp e s caller tok =
+      match caller with
+      | none => .unauthorized
+      | some c => .answer (refIntrospect e.now (provider atp e s) tok c) := by
+  cases rt <;> cases caller <;> simp [introspect, Introspect_eq, LegacyIntrospect_eq, callerR, Except.map]
+
+theorem revokeToken_out (w : ResWorld) (a b c : String) : (w.RevokeToken a b c).1.out = w.out := by
+  unfold ResWorld.RevokeToken; rfl
+
+theorem revoke_spec (rt : Router) (atp : ResATProvider) (e : Env) (s : St) (caller : Option String) (hint tok : String) :
+    revoke rt atp e s caller hint tok =
+      match caller with
+      | none => (s, .refused)
+      | some c =>
+        match refRevoke e.now (provider atp e s) { store := s } tok hint c with
+        | (w, .ok _) => (w.store, .ok)
+        | (w, .error _) => (w.store, .refused) := by
+  have hout : ∀ c, (refRevoke e.now (provider atp e s) { store := s } tok hint c).1.out = [] := by
+    intro c
+    unfold refRevoke
+    split
+    · rfl
+    · rw [revokeToken_out]
+  cases rt with
+  | provider =>
+    cases caller with
+    | none => simp [revoke, Revoke_eq, callerR, Except.map, Hand.resRevocationRequestError]
+    | some c =>
+      simp only [revoke, Revoke_eq, callerR, Except.map]
+      have := hout c
+      cases hr : refRevoke e.now (provider atp e s) { store := s } tok hint c with
+      | mk w x =>
+        rw [hr] at this
+        cases x <;> simp_all [Hand.resRevocationRequestError, Hand.resMarshalJSON]
+  | legacy =>
+    cases caller with
+    | none => rfl
+    | some c =>
+      simp only [revoke, LegacyRevocation_eq]
+      cases hr : refRevoke e.now (provider atp e s) { store := s } tok hint c with
+      | mk w x => cases x <;> simp
+
+/-- the two shapes of an introspection answer: the zero value, or the fields of a LIVE token whose audience contains the caller -/
+theorem refIntrospect_cases (now : Int) (p : ResProvider) (tok cid : String) :
+    refIntrospect now p tok cid = default ∨
+      ∃ id sub t, resolve now p tok = some (id, sub) ∧ p.store.liveTok id = some t ∧ t.audience.contains cid = true ∧
+        refIntrospect now p tok cid = { Active := true, Subject := t.subject, ClientID := t.client, Audience := t.audience, tokenID := t.id } := by
+  unfold refIntrospect
+  cases hr : resolve now p tok with
+  | none => left; rfl
+  | some pr =>
+    obtain ⟨id, sub⟩ := pr
+    simp only []
+    cases hs : p.store.SetIntrospectionFromToken default id sub cid with
+    | error err => left; rfl
+    | ok r =>
+      right
+      obtain ⟨t, ht, ha, rfl⟩ := setIntrospection_ok hs
+      exact ⟨id, sub, t, rfl, ht, ha, rfl⟩
+
+/-! ### (1) honoured ⇒ live -/
+
+/-- C08 (1): whatever is honoured - userinfo claims, active:true, an accepted exchange subject (access or refresh token), a
+    refresh grant - belongs to a token the storage knows that is neither expired, revoked nor removed; on both routers, for ANY
+    oracle behaviour (any plaintext a presented string decrypts to, any parser outcome) -/
+theorem honoured_implies_live (atp : ResATProvider) (s : St) (op : Op) (x : Ref) (h : (step atp s op).2 = some x) : Live s x := by
   cases op with
-  | issue t => simp only [step] at h; split at h <;> simp at h
-  | expire i => simp [step] at h
-  | revoke c p => simp [step] at h
+  | issue t r => simp only [step] at h; split at h <;> simp at h
+  | expire y => cases y <;> simp [step] at h
+  | revoke rt e c hint tok => simp [step] at h
   | endSession a b => simp [step] at h
-  | userinfo p =>
-    simp only [step, userinfo] at h
-    cases hr : resolve p with
+  | userinfo rt e tok =>
+    simp only [step, userinfo_spec] at h
+    cases hr : resolve e.now (provider atp e s) tok with
     | none => simp [hr] at h
     | some pr =>
-      obtain ⟨i, sub⟩ := pr
-      simp only [hr] at h
-      cases hl : liveTok s i with
-      | none => simp [hl] at h
-      | some t =>
-        simp [hl] at h; subst h
-        exact ⟨t, liveTok_some hl⟩
-  | introspect c p =>
-    simp only [step, introspect] at h
+      obtain ⟨id, sub⟩ := pr
+      cases hs : s.SetUserinfoFromToken id sub with
+      | error err => simp [hr, hs] at h
+      | ok u =>
+        simp [hr, hs] at h; subst h
+        obtain ⟨t, ht, rfl⟩ := setUserinfo_ok hs
+        exact ⟨t, (liveTok_some ht).1, rfl, (liveTok_some ht).2.2⟩
+  | introspect rt e c tok =>
+    simp only [step, introspect_spec] at h
     cases c with
     | none => simp at h
     | some cid =>
-      cases hr : resolve p with
-      | none => simp [hr] at h
-      | some pr =>
-        obtain ⟨i, sub⟩ := pr
-        simp only [hr] at h
-        cases hl : liveTok s i with
-        | none => simp [hl] at h
-        | some t =>
-          simp only [hl] at h
-          by_cases ha : cid ∈ t.audience
-          · simp [ha] at h
-            obtain ⟨h1, h2, h3⟩ := liveTok_some hl
-            exact ⟨t, h1, h, h3⟩
-          · simp [ha] at h
-  | exchange p =>
-    simp only [step, exchangeAccepts] at h
-    cases hr : resolve p with
-    | none => simp [hr] at h
-    | some pr =>
-      obtain ⟨i, sub⟩ := pr
-      simp only [hr] at h
-      cases hl : liveTok s i with
+      simp only [] at h
+      rcases refIntrospect_cases e.now (provider atp e s) tok cid with h0 | ⟨id, sub, t, _, ht, _, h1⟩
+      · rw [h0] at h; have hd : (default : ResIntrospection).Active = false := rfl
+        simp [hd] at h
+      · rw [h1] at h; simp at h; subst h
+        exact ⟨t, (liveTok_some ht).1, rfl, (liveTok_some ht).2.2⟩
+  | exchange e asRefresh tok =>
+    simp only [step, exchange] at h
+    split at h
+    · unfold St.TokenRequestByRefreshToken at h
+      cases hl : s.liveR tok with
       | none => simp [hl] at h
-      | some t =>
-        simp [hl] at h; subst h
-        exact ⟨t, liveTok_some hl⟩
+      | some r => simp [hl] at h; subst h; exact ⟨r, (liveR_some hl).1, rfl, (liveR_some hl).2.2⟩
+    · split at h
+      · rename_i id _ _ _
+        cases hl : s.liveTok id with
+        | none => simp [hl] at h
+        | some t => simp [hl] at h; subst h; exact ⟨t, (liveTok_some hl).1, rfl, (liveTok_some hl).2.2⟩
+      · simp at h
+  | refresh tok =>
+    simp only [step] at h
+    unfold St.TokenRequestByRefreshToken at h
+    cases hl : s.liveR tok with
+    | none => simp [hl] at h
+    | some r => simp [hl] at h; subst h; exact ⟨r, (liveR_some hl).1, rfl, (liveR_some hl).2.2⟩
 
+/-! ### (2) deadness is an invariant of every operation -/
 
-/-- every token with this id is dead (expired or revoked) -/
-def Dead (s : St) (id : String) : Prop := ∀ t, t ∈ s.toks → t.id = id → t.live = false
+/-- every record with this id / token string is dead (expired, revoked or removed) -/
+def Dead (s : St) : Ref → Prop
+  | .at id => ∀ t, t ∈ s.toks → t.id = id → t.live = false
+  | .rt tok => ∀ r, r ∈ s.rtoks → r.token = tok → r.live = false
 
-theorem map_dead {toks : List Tok} {f : Tok → Tok} {id : String}
-    (hid : ∀ t, (f t).id = t.id) (hlive : ∀ t, t.live = false → (f t).live = false)
-    (h : ∀ t, t ∈ toks → t.id = id → t.live = false) :
-    ∀ t, t ∈ toks.map f → t.id = id → t.live = false := by
-  intro t ht hti
-  simp only [List.mem_map] at ht
-  obtain ⟨t0, ht0, rfl⟩ := ht
-  exact hlive t0 (h t0 ht0 (by rw [← hid t0]; exact hti))
+/-- the storage has handed out this id / token string at some time -/
+def Known (s : St) : Ref → Prop
+  | .at id => ∃ t, t ∈ s.toks ∧ t.id = id
+  | .rt tok => ∃ r, r ∈ s.rtoks ∧ r.token = tok
 
-theorem find_map_isSome (toks : List Tok) (f : Tok → Tok) (id : String) (hid : ∀ t, (f t).id = t.id) :
-    ((toks.map f).find? (·.id == id)).isSome = (toks.find? (·.id == id)).isSome := by
-  induction toks with
-  | nil => rfl
-  | cons x xs ih =>
-    simp only [List.map_cons, List.find?_cons, hid x]
-    cases hx : x.id == id
-    · simp only [Bool.false_eq_true, if_false]; exact ih
-    · simp
+/-- `s'` arises from `s` by rewriting records in place without changing their names and without reviving any -/
+structure Rewrites (s s' : St) : Prop where
+  toks : ∃ f : Tok → Tok, s'.toks = s.toks.map f ∧ (∀ t, (f t).id = t.id) ∧ (∀ t, t.live = false → (f t).live = false)
+  rtoks : ∃ g : RTok → RTok, s'.rtoks = s.rtoks.map g ∧ (∀ r, (g r).token = r.token) ∧ (∀ r, r.live = false → (g r).live = false)
 
-/-- no operation brings a dead token back: deadness is an invariant of every step -/
-theorem dead_step (s : St) (op : Op) (id : String) (h : Dead s id) (hknown : (lookup s id).isSome) :
-    Dead (step s op).1 id ∧ (lookup (step s op).1 id).isSome := by
+theorem Rewrites.refl (s : St) : Rewrites s s :=
+  ⟨⟨id, by simp, fun _ => rfl, fun _ h => h⟩, ⟨id, by simp, fun _ => rfl, fun _ h => h⟩⟩
+
+theorem Rewrites.dead {s s' : St} (h : Rewrites s s') (x : Ref) (hd : Dead s x) (hk : Known s x) : Dead s' x ∧ Known s' x := by
+  obtain ⟨⟨f, hf, hfid, hflive⟩, ⟨g, hg, hgid, hglive⟩⟩ := h
+  cases x with
+  | «at» id =>
+    constructor
+    · intro t ht hti
+      rw [hf, List.mem_map] at ht
+      obtain ⟨t0, ht0, rfl⟩ := ht
+      exact hflive t0 (hd t0 ht0 (by rw [← hfid t0]; exact hti))
+    · obtain ⟨t, ht, hti⟩ := hk
+      exact ⟨f t, by rw [hf]; exact List.mem_map_of_mem ht, by rw [hfid]; exact hti⟩
+  | rt tok =>
+    constructor
+    · intro r hr hri
+      rw [hg, List.mem_map] at hr
+      obtain ⟨r0, hr0, rfl⟩ := hr
+      exact hglive r0 (hd r0 hr0 (by rw [← hgid r0]; exact hri))
+    · obtain ⟨r, hr, hri⟩ := hk
+      exact ⟨g r, by rw [hg]; exact List.mem_map_of_mem hr, by rw [hgid]; exact hri⟩
+
+theorem killTok_id (i : String) (t : Tok) : (killTok i t).id = t.id := by unfold killTok; split <;> rfl
+theorem killTok_live (i : String) (t : Tok) (h : t.live = false) : (killTok i t).live = false := by
+  unfold killTok; split <;> simp_all [Tok.live]
+theorem dropR_token (i : String) (r : RTok) : (dropR i r).token = r.token := by unfold dropR; split <;> rfl
+theorem dropR_live (i : String) (r : RTok) (h : r.live = false) : (dropR i r).live = false := by
+  unfold dropR; split <;> simp_all [RTok.live]
+
+theorem revokeToken_rewrites (s : St) (a b c : String) : Rewrites s (s.RevokeToken a b c).1 := by
+  unfold St.RevokeToken
+  split
+  · split
+    · exact Rewrites.refl s
+    · exact ⟨⟨killTok a, rfl, killTok_id a, killTok_live a⟩, ⟨id, by simp, fun _ => rfl, fun _ h => h⟩⟩
+  · split
+    · exact Rewrites.refl s
+    · split
+      · exact Rewrites.refl s
+      · rename_i r _ _
+        exact ⟨⟨killTok r.access, rfl, killTok_id _, killTok_live _⟩, ⟨dropR a, rfl, dropR_token a, dropR_live a⟩⟩
+
+theorem refRevoke_rewrites (now : Int) (p : ResProvider) (s : St) (tok hint cid : String) :
+    Rewrites s (refRevoke now p { store := s } tok hint cid).1.store := by
+  unfold refRevoke
+  split
+  · exact Rewrites.refl s
+  · rename_i t sub _
+    exact revokeToken_rewrites s t sub cid
+
+theorem revoke_rewrites (rt : Router) (atp : ResATProvider) (e : Env) (s : St) (c : Option String) (hint tok : String) :
+    Rewrites s (revoke rt atp e s c hint tok).1 := by
+  rw [revoke_spec]
+  cases c with
+  | none => exact Rewrites.refl s
+  | some cid =>
+    simp only []
+    have := refRevoke_rewrites e.now (provider atp e s) s tok hint cid
+    cases hr : refRevoke e.now (provider atp e s) { store := s } tok hint cid with
+    | mk w x => rw [hr] at this; cases x <;> exact this
+
+theorem terminate_rewrites (s : St) (sub cl : String) : Rewrites s (s.TerminateSession sub cl) :=
+  ⟨⟨_, rfl, fun t => by split <;> rfl, fun t h => by split <;> simp_all [Tok.live]⟩,
+   ⟨_, rfl, fun r => by split <;> rfl, fun r h => by split <;> simp_all [RTok.live]⟩⟩
+
+theorem rotate_rewrites (s : St) (tok : String) : Rewrites s (s.rotate tok) := by
+  unfold St.rotate
+  split
+  · exact Rewrites.refl s
+  · exact ⟨⟨_, rfl, fun t => by split <;> rfl, fun t h => by split <;> simp_all [Tok.live]⟩, ⟨dropR tok, rfl, dropR_token tok, dropR_live tok⟩⟩
+
+/-- no operation brings a dead token back: deadness (of access and refresh tokens alike) is an invariant of every step -/
+theorem dead_step (atp : ResATProvider) (s : St) (op : Op) (x : Ref) (h : Dead s x) (hk : Known s x) :
+    Dead (step atp s op).1 x ∧ Known (step atp s op).1 x := by
   cases op with
-  | userinfo p => exact ⟨h, hknown⟩
-  | introspect c p => exact ⟨h, hknown⟩
-  | exchange p => exact ⟨h, hknown⟩
-  | issue t =>
+  | userinfo rt e tok => exact ⟨h, hk⟩
+  | introspect rt e c tok => exact ⟨h, hk⟩
+  | exchange e a tok => exact ⟨h, hk⟩
+  | revoke rt e c hint tok => exact (revoke_rewrites rt atp e s c hint tok).dead x h hk
+  | endSession sub cl => exact (terminate_rewrites s sub cl).dead x h hk
+  | refresh tok =>
     simp only [step]
     split
-    · exact ⟨h, hknown⟩
-    · rename_i hnew
-      constructor
-      · intro x hx hxi
-        simp only [List.mem_append, List.mem_singleton] at hx
-        rcases hx with hx | rfl
-        · exact h x hx hxi
-        · -- the new token would have to carry the id of a known token: impossible, ids are unique
-          exfalso
-          simp only [] at hxi
-          rw [hxi] at hnew
-          exact hnew hknown
-      · unfold lookup at *
-        simp only [List.find?_append]
-        cases hf : List.find? (fun x => x.id == id) s.toks with
-        | none => simp [hf] at hknown
-        | some x => simp
-  | expire i =>
+    · exact (rotate_rewrites s tok).dead x h hk
+    · exact ⟨h, hk⟩
+  | expire y =>
+    cases y with
+    | «at» i =>
+      exact (show Rewrites s _ from ⟨⟨_, rfl, fun t => by split <;> rfl, fun t h => by split <;> simp_all [Tok.live]⟩,
+        ⟨id, by simp [step], fun _ => rfl, fun _ h => h⟩⟩).dead x h hk
+    | rt i =>
+      exact (show Rewrites s _ from ⟨⟨id, by simp [step], fun _ => rfl, fun _ h => h⟩,
+        ⟨_, rfl, fun t => by split <;> rfl, fun t h => by split <;> simp_all [RTok.live]⟩⟩).dead x h hk
+  | issue t r =>
     simp only [step]
-    constructor
-    · exact map_dead (fun t => by split <;> rfl) (fun t ht => by split <;> simp_all [Tok.live]) h
-    · unfold lookup at *
-      simp only []
-      rw [find_map_isSome _ _ _ (fun t => by split <;> rfl)]; exact hknown
-  | endSession sub cl =>
-    simp only [step, terminate]
-    constructor
-    · exact map_dead (fun t => by split <;> rfl) (fun t ht => by split <;> simp_all [Tok.live]) h
-    · unfold lookup at *
-      simp only []
-      rw [find_map_isSome _ _ _ (fun t => by split <;> rfl)]; exact hknown
-  | revoke c p =>
-    simp only [step, revoke]
-    cases c with
-    | none => exact ⟨h, hknown⟩
-    | some cid =>
-      simp only []
-      cases hr : resolve p with
-      | none => exact ⟨h, hknown⟩
-      | some pr =>
-        obtain ⟨i, sub⟩ := pr
-        simp only []
-        cases hl : lookup s i with
-        | none => exact ⟨h, hknown⟩
-        | some t =>
-          simp only []
-          split
-          · exact ⟨h, hknown⟩
-          · constructor
-            · exact map_dead (fun t => by split <;> rfl) (fun t ht => by split <;> simp_all [Tok.live]) h
-            · unfold lookup at *
-              simp only []
-              rw [find_map_isSome _ _ _ (fun t => by split <;> rfl)]; exact hknown
+    split
+    · rename_i hfresh
+      simp only [freshIDs, Bool.and_eq_true, Bool.not_eq_true', List.any_eq_false, beq_iff_eq] at hfresh
+      -- a new record would have to carry the name of a known one: impossible, names are fresh
+      cases x with
+      | «at» i =>
+        obtain ⟨t0, ht0, hti⟩ := hk
+        refine ⟨?_, ⟨t0, by simp [ht0], hti⟩⟩
+        intro y hy hyi
+        simp only [List.mem_append, List.mem_singleton] at hy
+        rcases hy with hy | rfl
+        · exact h y hy hyi
+        · exfalso; simp only [] at hyi; exact hfresh.1 t0 ht0 (by rw [hti, hyi])
+      | rt i =>
+        obtain ⟨r0, hr0, hri⟩ := hk
+        refine ⟨?_, ⟨r0, by simp [hr0], hri⟩⟩
+        intro y hy hyi
+        simp only [List.mem_append] at hy
+        rcases hy with hy | hy
+        · exact h y hy hyi
+        · exfalso
+          cases r with
+          | none => simp at hy
+          | some r1 =>
+            simp only [List.mem_singleton] at hy; subst hy
+            simp only [List.any_eq_false, beq_iff_eq, Bool.not_eq_true'] at hfresh
+            exact hfresh.2 r0 hr0 (by rw [hri, ← hyi])
+    · exact ⟨h, hk⟩
 
 /-- a dead token is never honoured -/
-theorem dead_not_honoured (s : St) (op : Op) (id : String) (h : Dead s id) : (step s op).2 ≠ some id := by
+theorem dead_not_honoured (atp : ResATProvider) (s : St) (op : Op) (x : Ref) (h : Dead s x) : (step atp s op).2 ≠ some x := by
   intro hh
-  obtain ⟨t, ht, hid, hlive⟩ := honoured_implies_live s op id hh
-  have := h t ht hid
-  rw [this] at hlive
-  cases hlive
+  have hl := honoured_implies_live atp s op x hh
+  cases x with
+  | «at» i => obtain ⟨t, ht, hi, hlive⟩ := hl; rw [h t ht hi] at hlive; cases hlive
+  | rt i => obtain ⟨t, ht, hi, hlive⟩ := hl; rw [h t ht hi] at hlive; cases hlive
 
-/-- C08 (2): revocation and logout take effect everywhere and for good - once a known token is dead,
-    NO later history of operations (any length, any order) gets it honoured again -/
-theorem revocation_sticks (ops : List Op) (s : St) (id : String) (h : Dead s id) (hknown : (lookup s id).isSome) :
-    ∀ o, o ∈ (run s ops).2 → o ≠ some id := by
+/-- C08 (2): revocation and logout take effect everywhere and for good - once a known access OR refresh token is dead, NO later
+    history of operations (any length, any order, either router, any issuer, any oracle behaviour) gets it honoured again -/
+theorem revocation_sticks (atp : ResATProvider) (ops : List Op) (s : St) (x : Ref) (h : Dead s x) (hk : Known s x) :
+    ∀ o, o ∈ (run atp s ops).2 → o ≠ some x := by
   induction ops generalizing s with
   | nil => intro o ho; simp [run] at ho
   | cons op rest ih =>
     intro o ho
     simp only [run, List.mem_cons] at ho
     rcases ho with rfl | ho
-    · exact dead_not_honoured s op id h
-    · obtain ⟨h1, h2⟩ := dead_step s op id h hknown
-      exact ih (step s op).1 h1 h2 o ho
+    · exact dead_not_honoured atp s op x h
+    · obtain ⟨h1, h2⟩ := dead_step atp s op x h hk
+      exact ih (step atp s op).1 h1 h2 o ho
 
-/-- a successful revocation by the owning client kills the token -/
-theorem revoke_kills (s : St) (cid : String) (p : Presented) (id sub : String) (t : Tok)
-    (hr : resolve p = some (id, sub)) (hl : lookup s id = some t) (hown : t.client = cid) :
-    (revoke s (some cid) p).2 = .ok ∧ Dead (revoke s (some cid) p).1 id := by
-  simp only [revoke, hr, hl, hown, bne_self_eq_false, Bool.false_eq_true, if_false, true_and]
+/-! ### (3) revocation: by the owner (every hint), by a foreign client, of unknown strings -/
+
+theorem getRefreshTokenInfo_none {s : St} {cid tok : String} (h : s.lookupR tok = none) :
+    (ResWorld.GetRefreshTokenInfo { store := s } cid tok) = .error "ErrInvalidRefreshToken" := by
+  simp [ResWorld.GetRefreshTokenInfo, St.GetRefreshTokenInfo, h]
+
+theorem getRefreshTokenInfo_some {s : St} {cid tok : String} {r : RTok} (h : s.lookupR tok = some r) :
+    (ResWorld.GetRefreshTokenInfo { store := s } cid tok) = .ok (r.subject, tok) := by
+  simp [ResWorld.GetRefreshTokenInfo, St.GetRefreshTokenInfo, h, (lookupR_some h).2.1]
+
+/-- an access-token string (that is not also a stored refresh-token string) is revoked by its id - whatever the hint says -/
+theorem revokeTarget_at {now : Int} {p : ResProvider} {s : St} {tok hint cid id sub : String}
+    (hr : resolve now p tok = some (id, sub)) (hnr : hint = "access_token" ∨ s.lookupR tok = none) :
+    revokeTarget now p { store := s } tok hint cid = .ok (id, sub) := by
+  unfold revokeTarget asAccess
+  rw [hr]
+  by_cases hh : (hint != "access_token") = true
+  · rcases hnr with rfl | hnr
+    · simp at hh
+    · simp [hh, getRefreshTokenInfo_none hnr, Hand.resErrorsIs]
+  · simp [hh]
+
+/-- a stored refresh-token string is revoked as such, under every hint, UNLESS the hint says access_token and the string is
+    mistaken for an opaque / JWT access token (see `revoke_rt_wrong_hint_witness`) -/
+theorem revokeTarget_rt {now : Int} {p : ResProvider} {s : St} {tok hint cid : String} {r : RTok}
+    (hl : s.lookupR tok = some r) (hh : hint ≠ "access_token" ∨ resolve now p tok = none) :
+    ∃ sub, revokeTarget now p { store := s } tok hint cid = .ok (tok, sub) := by
+  unfold revokeTarget asAccess
+  by_cases h : (hint != "access_token") = true
+  · exact ⟨r.subject, by simp [h, getRefreshTokenInfo_some hl]⟩
+  · rcases hh with hh | hh
+    · simp at h; exact absurd h hh
+    · exact ⟨"", by simp [h, hh]⟩
+
+theorem revokeToken_at {s : St} {id sub cid : String} {t : Tok} (hl : s.lookup id = some t) (hown : t.client = cid) :
+    s.RevokeToken id sub cid = ({ s with toks := s.toks.map (killTok id) }, .ok ()) := by
+  simp [St.RevokeToken, hl, hown]
+
+theorem revokeToken_rt {s : St} {tok sub cid : String} {r : RTok} (hn : s.lookup tok = none) (hl : s.lookupR tok = some r) (hown : r.client = cid) :
+    s.RevokeToken tok sub cid = ({ toks := s.toks.map (killTok r.access), rtoks := s.rtoks.map (dropR tok) }, .ok ()) := by
+  simp [St.RevokeToken, hn, hl, hown]
+
+theorem killTok_dead (toks : List Tok) (id : String) : ∀ x, x ∈ toks.map (killTok id) → x.id = id → x.live = false := by
   intro x hx hxi
   simp only [List.mem_map] at hx
   obtain ⟨x0, _, rfl⟩ := hx
-  split at hxi <;> split <;> simp_all [Tok.live]
+  unfold killTok at hxi ⊢
+  split <;> simp_all [Tok.live]
 
-/-- revocation by another client is refused and changes nothing -/
-theorem foreign_revoke_refused (s : St) (cid : String) (p : Presented) (id sub : String) (t : Tok)
-    (hr : resolve p = some (id, sub)) (hl : lookup s id = some t) (hforeign : t.client ≠ cid) :
-    revoke s (some cid) p = (s, .refused) := by
-  simp [revoke, hr, hl, hforeign]
+theorem dropR_dead (rtoks : List RTok) (tok : String) : ∀ x, x ∈ rtoks.map (dropR tok) → x.token = tok → x.live = false := by
+  intro x hx hxi
+  simp only [List.mem_map] at hx
+  obtain ⟨x0, _, rfl⟩ := hx
+  unfold dropR at hxi ⊢
+  split <;> simp_all [RTok.live]
 
-/-- unknown or garbage tokens are answered 200 without effect -/
-theorem unknown_revoke_ok (s : St) (cid : String) (p : Presented)
-    (h : resolve p = none ∨ ∃ id sub, resolve p = some (id, sub) ∧ lookup s id = none) :
-    revoke s (some cid) p = (s, .ok) := by
-  rcases h with h | ⟨id, sub, h1, h2⟩ <;> simp [revoke, *]
+/-- C08 (3a): revocation of an ACCESS token by the owning client answers 200 and kills the token - on both routers, for EVERY
+    token_type_hint (absent, right, wrong, garbage) and every oracle behaviour -/
+theorem revoke_kills_at (rt : Router) (atp : ResATProvider) (e : Env) (s : St) (cid hint tok id sub : String) (t : Tok)
+    (hr : resolve e.now (provider atp e s) tok = some (id, sub)) (hl : s.lookup id = some t) (hown : t.client = cid)
+    (hnr : hint = "access_token" ∨ s.lookupR tok = none) :
+    (revoke rt atp e s (some cid) hint tok).2 = .ok ∧ Dead (revoke rt atp e s (some cid) hint tok).1 (.at id) := by
+  rw [revoke_spec]
+  simp only [refRevoke, revokeTarget_at hr hnr, ResWorld.RevokeToken, revokeToken_at hl hown]
+  exact ⟨trivial, killTok_dead s.toks id⟩
 
-/-- C08 (3): an inactive introspection answer is the constant `inactive` - it carries no field of any token -/
-theorem inactive_discloses_nothing (s : St) (c : Option String) (p : Presented) :
-    (∃ t, introspect s c p = .active t ∧ t.live = true ∧ (∃ cid, c = some cid ∧ t.audience.contains cid = true))
-      ∨ introspect s c p = .inactive ∨ introspect s c p = .unauthorized := by
-  unfold introspect
+/-- C08 (3b): revocation of a REFRESH token by the owning client answers 200 and kills the refresh token AND the access token
+    issued with it - on both routers, for every hint other than `access_token`, and for `access_token` too as long as the string is
+    not mistaken for an access token.  (`hn`: refresh-token strings and access-token ids are different name spaces.) -/
+theorem revoke_kills_rt_partial (rt : Router) (atp : ResATProvider) (e : Env) (s : St) (cid hint tok : String) (r : RTok)
+    (hl : s.lookupR tok = some r) (hown : r.client = cid) (hn : s.lookup tok = none)
+    (hh : hint ≠ "access_token" ∨ resolve e.now (provider atp e s) tok = none) :
+    (revoke rt atp e s (some cid) hint tok).2 = .ok ∧ Dead (revoke rt atp e s (some cid) hint tok).1 (.rt tok) ∧
+      Dead (revoke rt atp e s (some cid) hint tok).1 (.at r.access) := by
+  rw [revoke_spec]
+  obtain ⟨sub, ht⟩ := revokeTarget_rt (cid := cid) hl hh
+  simp only [refRevoke, ht, ResWorld.RevokeToken, revokeToken_rt hn hl hown]
+  exact ⟨trivial, dropR_dead s.rtoks tok, killTok_dead s.toks r.access⟩
+
+/-- revocation of an access token by another client is refused and changes nothing -/
+theorem foreign_revoke_refused_at (rt : Router) (atp : ResATProvider) (e : Env) (s : St) (cid hint tok id sub : String) (t : Tok)
+    (hr : resolve e.now (provider atp e s) tok = some (id, sub)) (hl : s.lookup id = some t) (hforeign : t.client ≠ cid)
+    (hnr : hint = "access_token" ∨ s.lookupR tok = none) :
+    revoke rt atp e s (some cid) hint tok = (s, .refused) := by
+  rw [revoke_spec]
+  simp [refRevoke, revokeTarget_at hr hnr, ResWorld.RevokeToken, St.RevokeToken, hl, hforeign]
+
+/-- revocation of a refresh token by another client is refused and changes nothing -/
+theorem foreign_revoke_refused_rt (rt : Router) (atp : ResATProvider) (e : Env) (s : St) (cid hint tok : String) (r : RTok)
+    (hl : s.lookupR tok = some r) (hforeign : r.client ≠ cid) (hn : s.lookup tok = none)
+    (hh : hint ≠ "access_token" ∨ resolve e.now (provider atp e s) tok = none) :
+    revoke rt atp e s (some cid) hint tok = (s, .refused) := by
+  rw [revoke_spec]
+  obtain ⟨sub, ht⟩ := revokeTarget_rt (cid := cid) hl hh
+  simp [refRevoke, ht, ResWorld.RevokeToken, St.RevokeToken, hn, hl, hforeign]
+
+/-- unknown or garbage strings (neither a stored refresh token, nor resolving to a stored access-token id, nor a stored name
+    themselves) are answered 200 without effect -/
+theorem unknown_revoke_ok (rt : Router) (atp : ResATProvider) (e : Env) (s : St) (cid hint tok : String)
+    (hnr : s.lookupR tok = none)
+    (hna : s.lookup (asAccess e.now (provider atp e s) tok).1 = none) (hnb : s.lookupR (asAccess e.now (provider atp e s) tok).1 = none) :
+    revoke rt atp e s (some cid) hint tok = (s, .ok) := by
+  rw [revoke_spec]
+  have ht : revokeTarget e.now (provider atp e s) { store := s } tok hint cid = .ok (asAccess e.now (provider atp e s) tok) := by
+    unfold revokeTarget
+    by_cases hh : (hint != "access_token") = true
+    · simp [hh, getRefreshTokenInfo_none hnr, Hand.resErrorsIs]
+    · simp [hh]
+  simp [refRevoke, ht, ResWorld.RevokeToken, St.RevokeToken, hna, hnb]
+
+/-- C08 (4): an introspection answer is `unauthorized`, or the constant zero-valued inactive answer (it carries no field of any
+    token), or the fields of a LIVE token whose audience contains the authenticated caller -/
+theorem inactive_discloses_nothing (rt : Router) (atp : ResATProvider) (e : Env) (s : St) (c : Option String) (tok : String) :
+    introspect rt atp e s c tok = .unauthorized ∨ introspect rt atp e s c tok = .answer default ∨
+      ∃ cid t, c = some cid ∧ t ∈ s.toks ∧ t.live = true ∧ t.audience.contains cid = true ∧
+        introspect rt atp e s c tok = .answer { Active := true, Subject := t.subject, ClientID := t.client, Audience := t.audience, tokenID := t.id } := by
+  rw [introspect_spec]
   cases c with
-  | none => right; right; rfl
+  | none => left; rfl
   | some cid =>
-    simp only []
-    cases hr : resolve p with
-    | none => right; left; rfl
-    | some pr =>
-      obtain ⟨i, sub⟩ := pr
-      simp only []
-      cases hl : liveTok s i with
-      | none => right; left; rfl
-      | some t =>
-        simp only []
-        by_cases ha : cid ∈ t.audience
-        · left; exact ⟨t, by simp [ha], (liveTok_some hl).2.2, cid, rfl, by simpa using ha⟩
-        · right; left; simp [ha]
+    right
+    rcases refIntrospect_cases e.now (provider atp e s) tok cid with h0 | ⟨id, sub, t, _, ht, ha, h1⟩
+    · left; simp [h0]
+    · right; exact ⟨cid, t, rfl, (liveTok_some ht).1, (liveTok_some ht).2.2, ha, by simp [h1]⟩
 
-/-! non-vacuity -/
-def exTok : Tok := { id := "at1", client := "web", subject := "u1", audience := ["web"] }
-def exSt : St := { toks := [exTok] }
-example : (step exSt (.userinfo (.decrypts "at1:u1"))).2 = some "at1" := by decide
-example : (run exSt [.revoke (some "web") (.decrypts "at1:u1"), .userinfo (.decrypts "at1:u1"), .introspect (some "web") (.jwt "at1" "u1")]).2
-    = [none, none, none] := by decide
-example : (run exSt [.revoke (some "evil") (.decrypts "at1:u1"), .userinfo (.decrypts "at1:u1")]).2 = [none, some "at1"] := by decide
+/-! ### (5) a JWT access token is honoured only at the issuer named in it -/
+
+/-- the verifier that checks a JWT access token while a request addressed to `e.issuer` is served expects exactly that issuer
+    (regenerated `Provider.AccessTokenVerifier`: built per request from `IssuerFromContext`) -/
+theorem provider_verifier (atp : ResATProvider) (e : Env) (s : St) :
+    (provider atp e s).verifier = { Issuer := e.issuer, KeySet := atp.accessTokenKeySet, SupportedSignAlgs := atp.accessTokenVerifierOpts } := by
+  simp [provider, GenRes.ProviderAccessTokenVerifier, Hand.resNewAccessTokenVerifier]
+
+/-- a string that is not an opaque token (Decrypt fails) resolves only as a JWT the verifier accepts: its payload names the
+    verifier's issuer, it carries exactly one signature with an allowed algorithm by a published key over that payload (C02), and
+    it is unexpired -/
+theorem jwt_resolve {now : Int} {p : ResProvider} {tok id sub : String} (hd : ∀ pl, p.decrypt tok ≠ .ok pl)
+    (h : resolve now p tok = some (id, sub)) :
+    ∃ pl c0 c, ParseToken now (p.tokenOf tok) = .ok (pl, c0) ∧ c0.iss = p.verifier.Issuer ∧
+      C02.monitor p.verifier.SupportedSignAlgs p.verifier.KeySet (p.tokenOf tok) (some c) = none ∧
+      Gen.CheckExpiration now c p.verifier.Offset = .ok () ∧ id = p.jtiOf tok ∧ sub = c.sub := by
+  unfold resolve at h
+  cases hdec : p.decrypt tok with
+  | ok pl => exact absurd hdec (hd pl)
+  | error err =>
+    simp only [hdec] at h
+    cases hv : Gen.OPVerifyAccessToken now (p.tokenOf tok) p.verifier with
+    | error e => simp [hv] at h
+    | ok c =>
+      simp [hv] at h
+      obtain ⟨pl, c0, hp, hi, hs, he⟩ := opVerifyAccessToken_ok hv
+      have hm := C02.c02_accessToken now (p.tokenOf tok) p.verifier
+      rw [hv] at hm
+      exact ⟨pl, c0, c, hp, hi, hm, he, h.1.symm, h.2.symm⟩
+
+/-- the operations at which an access-token string is presented to be honoured -/
+def presentedAt : Op → Option (Env × String)
+  | .userinfo _ e tok => some (e, tok)
+  | .introspect _ e _ tok => some (e, tok)
+  | .exchange e false tok => some (e, tok)
+  | _ => none
+
+theorem honoured_resolves (atp : ResATProvider) (s : St) (op : Op) (x : Ref) (e : Env) (tok : String)
+    (hp : presentedAt op = some (e, tok)) (h : (step atp s op).2 = some x) :
+    ∃ id sub, resolve e.now (provider atp e s) tok = some (id, sub) := by
+  cases op with
+  | issue t r => simp [presentedAt] at hp
+  | expire y => simp [presentedAt] at hp
+  | revoke rt e' c hint tok' => simp [presentedAt] at hp
+  | endSession a b => simp [presentedAt] at hp
+  | refresh t => simp [presentedAt] at hp
+  | userinfo rt e' tok' =>
+    simp only [presentedAt, Option.some.injEq, Prod.mk.injEq] at hp
+    obtain ⟨rfl, rfl⟩ := hp
+    simp only [step, userinfo_spec] at h
+    cases hr : resolve e'.now (provider atp e' s) tok' with
+    | none => simp [hr] at h
+    | some pr => exact ⟨pr.1, pr.2, rfl⟩
+  | introspect rt e' c tok' =>
+    simp only [presentedAt, Option.some.injEq, Prod.mk.injEq] at hp
+    obtain ⟨rfl, rfl⟩ := hp
+    simp only [step, introspect_spec] at h
+    cases c with
+    | none => simp at h
+    | some cid =>
+      simp only [] at h
+      rcases refIntrospect_cases e'.now (provider atp e' s) tok' cid with h0 | ⟨id, sub, t, hr, _, _, _⟩
+      · rw [h0] at h; have hd : (default : ResIntrospection).Active = false := rfl
+        simp [hd] at h
+      · exact ⟨id, sub, hr⟩
+  | exchange e' asRefresh tok' =>
+    cases asRefresh with
+    | true => simp [presentedAt] at hp
+    | false =>
+      simp only [presentedAt, Option.some.injEq, Prod.mk.injEq] at hp
+      obtain ⟨rfl, rfl⟩ := hp
+      simp only [step, exchange, Bool.false_eq_true, if_false] at h
+      have hb := getTokenIDAndClaims_eq e'.now (provider atp e' s) tok'
+      cases hr : resolve e'.now (provider atp e' s) tok' with
+      | some pr => exact ⟨pr.1, pr.2, rfl⟩
+      | none =>
+        rw [hr] at hb
+        simp only [resolved, Prod.mk.injEq] at hb
+        split at h
+        · rename_i heq; rw [heq] at hb; simp at hb
+        · simp at h
+
+/-- C08 (5): a JWT access token (a presented string that is not an opaque token) is honoured - userinfo claims, `active:true`,
+    accepted exchange subject, on either router - ONLY by the issuer named in its payload: for all issuers / hosts the request may be
+    addressed to, all key sets and all histories; and then it is validly signed by a published key (C02) and unexpired -/
+theorem c08_issuer_bound (atp : ResATProvider) (s : St) (op : Op) (x : Ref) (e : Env) (tok : String)
+    (hp : presentedAt op = some (e, tok)) (hd : ∀ pl, e.decrypt tok ≠ .ok pl) (h : (step atp s op).2 = some x) :
+    ∃ pl c0 c, ParseToken e.now (e.tokenOf tok) = .ok (pl, c0) ∧ c0.iss = e.issuer ∧
+      C02.monitor atp.accessTokenVerifierOpts atp.accessTokenKeySet (e.tokenOf tok) (some c) = none ∧
+      Gen.CheckExpiration e.now c 0 = .ok () := by
+  obtain ⟨id, sub, hr⟩ := honoured_resolves atp s op x e tok hp h
+  obtain ⟨pl, c0, c, h1, h2, h3, h4, _, _⟩ := jwt_resolve (p := provider atp e s) hd hr
+  rw [provider_verifier] at h2 h3 h4
+  exact ⟨pl, c0, c, h1, h2, h3, h4⟩
+
+/-- … whereas an OPAQUE token carries no issuer: whether it is honoured does not depend on the issuer the request is addressed to
+    (finding F-C08c: on a multi-issuer provider the binding is left to the storage) -/
+theorem opaque_not_issuer_bound (atp : ResATProvider) (s : St) (e : Env) (tok pl : String) (iss : String)
+    (hd : e.decrypt tok = .ok pl) :
+    resolve e.now (provider atp e s) tok = resolve e.now (provider atp { e with issuer := iss } s) tok := by
+  simp [resolve, provider, hd]
+
+/-! ### (6) who may ask: the regenerated request parsers of the Provider router -/
+
+/-- introspection is answered only for an AUTHENTICATED caller: `ParseTokenIntrospectionRequest` lets a request through only when
+    `ClientIDFromRequest` authenticated the client (identification alone - a public client, a secret in the form - is not enough) -/
+theorem parseIntrospection_ok {now : Int} {r : ResHttpReq} {p : ResProvider} {tok cid : String}
+    (h : GenRes.ParseTokenIntrospectionRequest now r p = .ok (tok, cid)) :
+    r.identified = .ok (cid, true) ∧ tok = r.Form.Token := by
+  unfold GenRes.ParseTokenIntrospectionRequest Hand.resClientIDFromRequest ResProvider.Decoder at h
+  simp only [] at h
+  cases hi : r.identified with
+  | error e => simp [hi] at h
+  | ok pr =>
+    obtain ⟨c, a⟩ := pr
+    simp only [hi] at h
+    cases a with
+    | false => simp at h
+    | true =>
+      simp only [Bool.not_true, Bool.false_eq_true, if_false] at h
+      by_cases hu : r.Form.undecodable = true
+      · simp [hu] at h
+      · simp [hu] at h
+        exact ⟨by rw [h.2], h.1.symm⟩
+
+theorem introspectRequest_eq (atp : ResATProvider) (e : Env) (s : St) (r : ResHttpReq) :
+    introspectRequest atp e s r =
+      match GenRes.ParseTokenIntrospectionRequest e.now r (provider atp e s) with
+      | .error _ => .unauthorized
+      | .ok (tok, cid) => introspect .provider atp e s (some cid) tok := by
+  unfold introspectRequest
+  cases hp : GenRes.ParseTokenIntrospectionRequest e.now r (provider atp e s) with
+  | error err => simp [Introspect_eq]
+  | ok pr => obtain ⟨tok, cid⟩ := pr; simp [introspect, Introspect_eq, callerR, Except.map]
+
+/-- the client a revocation request is performed for: it proved itself by a verified assertion naming it as issuer (and private_key_jwt
+    is switched on), by Basic auth or by a secret in the form that the storage accepts, or it is a registered PUBLIC client naming itself -/
+def RevocationCaller (now : Int) (r : ResHttpReq) (p : ResProvider) (cid : String) : Prop :=
+  (r.Form.ClientAssertionType = Const.ClientAssertionTypeJWTAssertion ∧ p.pkjwtSupported = true ∧
+      ∃ c, Gen.VerifyJWTAssertion now r.assertionToken p.jwtProfileVerifier = .ok c ∧ c.iss = cid) ∨
+  (∃ u pw sec, r.basic = some (u, pw) ∧ r.queryUnescape u = .ok cid ∧ r.queryUnescape pw = .ok sec ∧
+      Gen.AuthorizeClientIDSecret now cid sec p.clientStore = .ok ()) ∨
+  (r.basic = none ∧ r.Form.ClientID = cid ∧ cid ≠ "" ∧ ∃ c, p.clientStore.GetClientByClientID cid = .ok c ∧
+      ((r.Form.ClientSecret = "" ∧ c.auth = Const.AuthMethodNone) ∨
+       (r.Form.ClientSecret ≠ "" ∧ Gen.AuthorizeClientIDSecret now cid r.Form.ClientSecret p.clientStore = .ok ())))
+
+/-- `ParseTokenRevocationRequest` hands the handler the submitted token and hint unchanged, for a client that proved who it is -/
+theorem parseRevocation_ok {now : Int} {r : ResHttpReq} {p : ResProvider} {tok hint cid : String}
+    (h : GenRes.ParseTokenRevocationRequest now r p = .ok (tok, hint, cid)) :
+    tok = r.Form.Token ∧ hint = r.Form.TokenTypeHint ∧ RevocationCaller now r p cid := by
+  unfold GenRes.ParseTokenRevocationRequest ResProvider.Decoder ResHttpReq.ParseForm ResHttpReq.BasicAuth Hand.resVerifyJWTAssertion
+    ResProvider.AuthMethodPrivateKeyJWTSupported ResProvider.AuthMethodPostSupported ResProvider.JWTProfileVerifier at h
+  simp only [] at h
+  by_cases hpf : r.parseFormFails = true
+  · simp [hpf] at h
+  · by_cases hu : r.Form.undecodable = true
+    · simp [hpf, hu] at h
+    · simp only [hpf, hu, Bool.false_eq_true, if_false] at h
+      by_cases hat : (r.Form.ClientAssertionType == Const.ClientAssertionTypeJWTAssertion) = true
+      · simp only [hat, if_true] at h
+        split at h
+        · simp at h
+        · rename_i hsup
+          cases hv : Gen.VerifyJWTAssertion now r.assertionToken p.jwtProfileVerifier with
+          | error e => simp [hv] at h
+          | ok c =>
+            simp [hv] at h
+            refine ⟨h.1.symm, h.2.1.symm, Or.inl ⟨by simpa using hat, ?_, c, hv, h.2.2⟩⟩
+            simp at hsup; exact hsup.2
+      · simp only [hat, Bool.false_eq_true, if_false] at h
+        cases hb : r.basic with
+        | some up =>
+          obtain ⟨u, pw⟩ := up
+          simp only [hb, if_true] at h
+          cases hq1 : r.queryUnescape u with
+          | error e => simp [hq1] at h
+          | ok cid' =>
+            simp only [hq1] at h
+            cases hq2 : r.queryUnescape pw with
+            | error e => simp [hq2] at h
+            | ok sec =>
+              simp only [hq2] at h
+              cases ha : Gen.AuthorizeClientIDSecret now cid' sec p.clientStore with
+              | error e => simp [ha] at h
+              | ok _ =>
+                simp [ha] at h
+                obtain ⟨h1, h2, rfl⟩ := h
+                exact ⟨h1.symm, h2.symm, Or.inr (Or.inl ⟨u, pw, sec, hb, hq1, hq2, ha⟩)⟩
+        | none =>
+          simp only [hb, Bool.false_eq_true, if_false] at h
+          by_cases hid : (r.Form.ClientID == "") = true
+          · simp [hid] at h
+          · simp only [hid, Bool.false_eq_true, if_false] at h
+            cases hc : p.clientStore.GetClientByClientID r.Form.ClientID with
+            | error e => simp [hc] at h
+            | ok c =>
+              simp only [hc] at h
+              by_cases hs : (r.Form.ClientSecret == "") = true
+              · simp only [hs, if_true] at h
+                split at h
+                · simp at h
+                · rename_i hnone
+                  simp at h
+                  obtain ⟨h1, h2, rfl⟩ := h
+                  refine ⟨h1.symm, h2.symm, Or.inr (Or.inr ⟨hb, rfl, by simpa using hid, c, hc, Or.inl ⟨by simpa using hs, ?_⟩⟩)⟩
+                  simpa [OPClient.AuthMethod] using hnone
+              · simp only [hs, Bool.false_eq_true, if_false] at h
+                split at h
+                · simp at h
+                · cases ha : Gen.AuthorizeClientIDSecret now r.Form.ClientID r.Form.ClientSecret p.clientStore with
+                  | error e => simp [ha] at h
+                  | ok _ =>
+                    simp [ha] at h
+                    obtain ⟨h1, h2, rfl⟩ := h
+                    exact ⟨h1.symm, h2.symm, Or.inr (Or.inr ⟨hb, rfl, by simpa using hid, c, hc, Or.inr ⟨by simpa using hs, ha⟩⟩)⟩
+
+theorem revokeRequest_eq (atp : ResATProvider) (e : Env) (s : St) (r : ResHttpReq) :
+    revokeRequest atp e s r =
+      match GenRes.ParseTokenRevocationRequest e.now r (provider atp e s) with
+      | .error _ => (s, .refused)
+      | .ok (tok, hint, cid) => revoke .provider atp e s (some cid) hint tok := by
+  unfold revokeRequest
+  cases hp : GenRes.ParseTokenRevocationRequest e.now r (provider atp e s) with
+  | error err => simp [Revoke_eq, Hand.resRevocationRequestError]
+  | ok pr => obtain ⟨tok, hint, cid⟩ := pr; simp [revoke, callerR, Except.map]
+
+/-! ### non-vacuity and witnesses -/
+def exTok : Tok := { id := "at1", client := "web", subject := "u1", audience := ["web"], refresh := "rt1" }
+def exRT : RTok := { token := "rt1", client := "web", subject := "u1", access := "at1" }
+def exSt : St := { toks := [exTok], rtoks := [exRT] }
+/-- "opaque1" is the opaque access token of at1; nothing else decrypts -/
+def exEnv : Env := { decrypt := fun t => if t == "opaque1" then .ok "at1:u1" else .error "illegal base64 data" }
+/-- a provider key, a JWT access token of issuer A signed by it, the request contexts of issuers A and B -/
+def exKey : JWK := { KeyID := "sig1", Use := "sig", kty := .rsa, keyNo := 0 }
+def exATP : ResATProvider := { accessTokenKeySet := { kind := .published, keys := [exKey] } }
+def exPayload : Payload := { bytes := 1, claims := some { iss := "https://a.example", sub := "u1", aud := ["web"], exp := 2000 } }
+def exJWT : Token :=
+  { segs := 3, middle := some exPayload,
+    jws := some { Signatures := [{ Header := ⟨"RS256", "sig1"⟩, signer := some 0, signedAlg := "RS256", signedBytes := 1, signedHdr := ⟨"RS256", "sig1"⟩ }], payload := exPayload } }
+def exEnvA : Env := { now := 1000 * Go.second, issuer := "https://a.example", tokenOf := fun _ => exJWT, jtiOf := fun _ => "at1" }
+def exEnvB : Env := { exEnvA with issuer := "https://b.example" }
+
+example : (step {} exSt (.userinfo .provider exEnv "opaque1")).2 = some (.at "at1") := by decide
+example : (step {} exSt (.introspect .legacy exEnv (some "web") "opaque1")).2 = some (.at "at1") := by decide
+example : (step {} exSt (.introspect .provider exEnv (some "other") "opaque1")).2 = none := by decide
+example : (run {} exSt [.exchange exEnv true "rt1", .refresh "rt1", .refresh "rt1"]).2 = [some (.rt "rt1"), some (.rt "rt1"), none] := by decide
+-- a JWT access token of issuer A: honoured at A, refused at B (both routers, all three endpoints), refused at A once expired
+example : (step exATP exSt (.userinfo .provider exEnvA "jwtA")).2 = some (.at "at1") := by decide
+example : (step exATP exSt (.userinfo .provider exEnvB "jwtA")).2 = none := by decide
+example : (step exATP exSt (.introspect .legacy exEnvB (some "web") "jwtA")).2 = none := by decide
+example : (step exATP exSt (.exchange exEnvA false "jwtA")).2 = some (.at "at1") := by decide
+example : (step exATP exSt (.exchange exEnvB false "jwtA")).2 = none := by decide
+example : (step exATP exSt (.userinfo .legacy { exEnvA with now := 3000 * Go.second } "jwtA")).2 = none := by decide
+-- revocation by the owner: access token (wrong hint), refresh token (no hint / wrong hint / garbage hint): dead everywhere afterwards
+example : (run {} exSt [.revoke .provider exEnv (some "web") "refresh_token" "opaque1", .userinfo .provider exEnv "opaque1",
+    .introspect .provider exEnv (some "web") "opaque1", .exchange exEnv false "opaque1"]).2 = [none, none, none, none] := by decide
+example : (run {} exSt [.revoke .legacy exEnv (some "web") "access_token" "rt1", .refresh "rt1", .exchange exEnv true "rt1",
+    .userinfo .provider exEnv "opaque1"]).2 = [none, none, none, none] := by decide
+example : (run {} exSt [.revoke .provider exEnv (some "web") "bogus" "rt1", .refresh "rt1", .userinfo .legacy exEnv "opaque1"]).2 = [none, none, none] := by decide
+example : (run {} exSt [.revoke .provider exEnv (some "evil") "" "rt1", .refresh "rt1"]).2 = [none, some (.rt "rt1")] := by decide
+example : (run {} exSt [.endSession "u1" "web", .refresh "rt1", .userinfo .provider exEnv "opaque1"]).2 = [none, none, none] := by decide
+
+/-- the full-strength statement "revocation of a refresh token by its owner kills it under EVERY hint" is FALSE of the code as it
+    is: with `token_type_hint=access_token` the refresh-token lookup is skipped, and a refresh-token string that happens to decrypt
+    (any base64url string of ≥ 22 characters does under AES-CFB) to a plaintext with exactly one ':' is taken for an opaque access
+    token - the storage is asked to revoke that plaintext's first half, answers "nothing to do", the endpoint answers 200 and the
+    refresh token stays live (finding F-C08b) -/
+def exEnvCollide : Env := { decrypt := fun _ => .ok "x:y" }
+theorem revoke_rt_wrong_hint_witness :
+    exSt.lookupR "rt1" = some exRT ∧ exRT.client = "web" ∧ exSt.lookup "rt1" = none ∧
+    (revoke .provider {} exEnvCollide exSt (some "web") "access_token" "rt1").2 = .ok ∧
+    (run {} exSt [.revoke .provider exEnvCollide (some "web") "access_token" "rt1", .refresh "rt1"]).2 = [none, some (.rt "rt1")] ∧
+    (run {} exSt [.revoke .provider exEnvCollide (some "web") "" "rt1", .refresh "rt1"]).2 = [none, none] := by decide
+
+
+-- the request parsers: Basic auth with the registered secret is let through, a wrong secret and a merely identified caller are not
+def exClients : Store := { clients := [{ id := "web", secret := "s3cret", auth := "client_secret_basic" }, { id := "pub", auth := "none" }] }
+def exProv : ResProvider := { clientStore := exClients, postSupported := true, pkjwtSupported := true }
+example : (GenRes.ParseTokenRevocationRequest 0 { Form := { Token := "rt1", TokenTypeHint := "access_token" }, basic := some ("web", "s3cret") } exProv).toOption
+    = some ("rt1", "access_token", "web") := by decide
+example : (GenRes.ParseTokenRevocationRequest 0 { Form := { Token := "rt1" }, basic := some ("web", "guess") } exProv).toBool = false := by decide
+example : (GenRes.ParseTokenRevocationRequest 0 { Form := { Token := "rt1", ClientID := "pub" } } exProv).toOption = some ("rt1", "", "pub") := by decide
+example : (GenRes.ParseTokenRevocationRequest 0 { Form := { Token := "rt1", ClientID := "web" } } exProv).toBool = false := by decide
+example : (GenRes.ParseTokenIntrospectionRequest 0 { Form := { Token := "t" }, identified := .ok ("web", true) } exProv).toOption = some ("t", "web") := by decide
+example : (GenRes.ParseTokenIntrospectionRequest 0 { Form := { Token := "t" }, identified := .ok ("pub", false) } exProv).toBool = false := by decide
 
 end Res
